@@ -3,7 +3,7 @@ from lib.coqterm import cbytes, cbool, copt, hx, unhx
 
 ID = "C51"
 QUICK_N = 6000
-THOROUGH_N = 120000
+THOROUGH_N = 30000
 SHARD = 400
 RULE = ("70% structured byte strings over a dictionary of backslash/quote/spacing/control/high-byte tokens "
         "(runs of backslashes of every parity before quotes and n/r/t), 15% uniform random bytes, 15% arbitrary "
